@@ -117,6 +117,34 @@ def run(chk):
                 lines.append(trans.case_line("T", amode, inp, full, cursor=cursor, presence=pres, typeform=tfm))
                 meta.append(("F", inp, amode, full, pres, cursor))
                 chk.tally("aimed_emphasis_inside_contraction")
+        # aimed at indicators in front of the very first character: a capitals passage or an emphasised passage of several
+        # words that starts at position 0 (and, as a control, at a later word)
+        for i in range(6 if quick else 30):
+            if alphabet is not None:
+                low = sorted(set(c for c in alphabet if 97 <= c <= 122)) or [97, 98]
+                word = lambda: [r.choice(low) for _ in range(r.range(1, 4))]
+            else:
+                word = lambda: [ord(c) for c in r.choice(safety.WORDS)]
+            ws = [word() for _ in range(r.range(2, 6))]
+            first = 0 if i % 3 else r.range(0, len(ws) - 1)
+            npass = r.range(2, len(ws))
+            kind = r.choice(["caps", "caps", "emph", "both"])
+            inp, tfm = [], []
+            for k, w in enumerate(ws):
+                inside = first <= k < first + npass
+                if k:
+                    inp.append(32)
+                    tfm.append(v if inside and k > first and kind != "caps" else 0)
+                v = r.choice([1, 2, 4, 8]) if k == first else (v if k > first else 0)
+                inp += [c - 32 if inside and kind != "emph" and 97 <= c <= 122 else c for c in w]
+                tfm += [v if inside and kind != "caps" else 0] * len(w)
+            pres = 12 | 1 | r.choice([0, 16])
+            cursor = r.choice([0, 0, r.range(0, len(inp) - 1)]) if pres & 16 else -2
+            full = 4 * len(inp) + 24
+            amode = r.choice([0, 0, 4])
+            lines.append(trans.case_line("T", amode, inp, r.choice([full, full, r.range(1, len(inp) + 2)]), cursor=cursor, presence=pres, typeform=tfm))
+            meta.append(("F", inp, amode, full, pres, cursor))
+            chk.tally("aimed_passage_at_start")
         rs = trans.run_cases(exe, tl, lines, exact=1, env=env, timeout=400)
         # second round: backward cases on the outputs
         blines, bmeta = [], []
